@@ -161,6 +161,8 @@ class ConcRunner:
             st = ctrl.current
             exec_id = getattr(st, "exec_id", None) if st is not None else None
             runner.invocations.append((key, exec_id, st.tid if st else -1))
+            if st is not None:
+                ctrl.trace.append((st.tid, "cb", key))
             dn = getattr(runner, "due_nolock", None)
             runner.inv_dues.append((key, dn(cell["job"]) if dn and cell.get("job") is not None else None))
             if cell.get("active"):
@@ -402,7 +404,11 @@ class ConcRunner:
             def job_calc(job, *a, **k):
                 t0 = runner_.tick()      # the new value may be visible to others from here on
                 ret = runner_._orig_jcalc(job, *a, **k)
-                runner_.job_vals.append((id(job), t0, due_nolock(job)))
+                v_ = due_nolock(job)
+                runner_.job_vals.append((id(job), t0, v_))
+                c_ = coop.controller()
+                if c_ is not None and c_.current is not None:
+                    c_.trace.append((c_.current.tid, "resched", (id(job), v_)))
                 return ret
 
             job_calc.__wrapped__ = self._orig_jcalc
@@ -441,6 +447,8 @@ class ConcRunner:
             if coop.is_shim_error(e):
                 self.uncontrollable = out["error"]
         finally:
+            if getattr(ctrl, "foreign", None):
+                self.uncontrollable = ctrl.foreign
             for t_ in ctrl.threads:
                 if t_.exc is not None and coop.is_shim_error(t_.exc):
                     self.uncontrollable = f"{type(t_.exc).__name__}: {t_.exc}"
@@ -491,6 +499,29 @@ class ConcRunner:
             if jid in self.key_of:
                 out["reschedulings"][self.key_of[jid]] = out["reschedulings"].get(self.key_of[jid], 0) + 1
         out["stops"] = {k: (inst_of(j.stop) if getattr(j, "stop", None) is not None else None) for k, j in enumerate(self.created)}
+        # invocations that started although the job's retirement by its stop had been completed before the worker even took
+        # the job's execution lock (the guard under that lock must have seen it): positions in the global trace
+        late = []
+        try:
+            xname = {k: j._Job__exec_lock.name for k, j in enumerate(self.created)}
+            for pos, ev in enumerate(ctrl.trace):
+                if ev[1] != "cb":
+                    continue
+                tid, k = ev[0], ev[2]
+                stop = out["stops"].get(k)
+                if stop is None or k not in xname:
+                    continue
+                acq = max((p for p in range(pos) if ctrl.trace[p][0] == tid and ctrl.trace[p][1] == "acq" and ctrl.trace[p][2] == xname[k]), default=None)
+                if acq is None:
+                    continue
+                for p in range(acq):
+                    e2 = ctrl.trace[p]
+                    if e2[1] == "resched" and self.key_of.get(e2[2][0]) == k and e2[2][1] is not None and e2[2][1] > stop:
+                        late.append([k, e2[2][1], stop])
+                        break
+            out["invoked_after_retirement"] = late
+        except Exception:  # noqa: BLE001 - the implementation has no per-job execution lock of that name: clause not evaluated
+            out["invoked_after_retirement"] = None
         out["schedule"] = list(ctrl.schedule)
         out["trace_len"] = len(ctrl.trace)
         out["edges"] = sorted(ctrl.edges)
